@@ -6,5 +6,5 @@ LEVEL = "proof"
 
 
 def run(chk, replay=None):
-    proccheck.run(chk, "PropC04", {'multi': 6, 'mixed': 2, 'lifecycle': 1}, 260, 4000, [102, 401], replay=replay)
+    proccheck.run(chk, "PropC04", {'multi': 6, 'staletick': 3, 'mixed': 2, 'lifecycle': 1}, 260, 4000, [102, 401], replay=replay)
     appkeycheck.run_stage(chk)
